@@ -1140,3 +1140,32 @@ Theorem C19_buf_append_start_agrees_generated : forall junk ok b len ptr r,
       = Ok (match o with Some _ => ptr | None => 0%Z end, match o with Some n => n | None => len end).
 Proof. exact buf_append_start_agrees_generated. Qed.
 Print Assumptions C19_buf_append_start_agrees_generated.
+
+(* ares_llist_node_detach: the cells of the heap after the model's detach are the outputs of the
+   function generated from the C source (pointers encoded relative to the node: node = 1,
+   NULL = 0), under the local well-formedness the list invariant gives a member *)
+From CAres.Dsa Require Import LList_gen_agree.
+Theorem C19_llist_node_detach_agrees_generated : forall h n nd l L c,
+  nth_error (lh_nodes h) n = Some (Some nd) ->
+  ln_parent nd = Some l ->
+  nth_error (lh_lists h) l = Some (Some L) ->
+  ll_cnt L = S c -> (Z.of_nat (S c) < 2 ^ 64)%Z ->
+  (forall p, ln_prev nd = Some p -> p <> n /\ ll_node_at h (Some p) <> None) ->
+  (forall x, ln_next nd = Some x -> x <> n /\ ll_node_at h (Some x) <> None) ->
+  (forall p x, ln_prev nd = Some p -> ln_next nd = Some x -> p <> x) ->
+  forall nextprev_in prevnext_in,
+  (forall xd, ll_node_at h (ln_next nd) = Some xd -> nextprev_in = ll_enc n (ln_prev xd)) ->
+  (forall pd, ll_node_at h (ln_prev nd) = Some pd -> prevnext_in = ll_enc n (ln_next pd)) ->
+  exists h' L' nd',
+    ll_node_detach h (Some n) = Ok h' /\
+    ll_list_at h' l = Some L' /\ ll_node_at h' (Some n) = Some nd' /\
+    exists o1 o6,
+      c_ares_llist_node_detach (ll_enc n (ln_prev nd)) (ll_enc n (ln_next nd))
+                               (ll_enc n (ll_head L)) (ll_enc n (ll_tail L))
+                               (Z.of_nat (ll_cnt L)) (ll_enc n (ll_tail L)) (ll_enc n (ll_head L))
+                               nextprev_in prevnext_in
+        = Ok (o1, ll_enc n (ln_parent nd'), Z.of_nat (ll_cnt L'), ll_enc n (ll_head L'), ll_enc n (ll_tail L'), o6) /\
+      (forall xd', ll_node_at h' (ln_next nd) = Some xd' -> o1 = ll_enc n (ln_prev xd')) /\
+      (forall pd', ll_node_at h' (ln_prev nd) = Some pd' -> o6 = ll_enc n (ln_next pd')).
+Proof. exact ll_node_detach_agrees_generated. Qed.
+Print Assumptions C19_llist_node_detach_agrees_generated.
